@@ -117,6 +117,13 @@ def gen0(tier, rng, shard, nshards):
         key = C.rbytes(rng, rng.choice([1, 1, 2, 3, 4, 4, 7, 16]))
         yield "xor", f"xor {C.hx(d)} {C.hx(key)}"
 
+    # histories with ONE key: consecutive calls of a worker run in one process, so whatever a call keeps for "the same key"
+    # (expanded key streams, masks) meets data of other lengths and phases next
+    for _ in range((600 if thorough else 60) // nshards):
+        key = C.rbytes(rng, rng.choice([2, 3, 4, 4, 5, 7, 16]))
+        for n in rng.sample([0, 1, 3, 4, 5, 6, 7, 9, 10, 13, 16, 17, 31, 64, 100], rng.choice([3, 5, 8])):
+            yield "xor", f"xor {C.hx(C.rbytes(rng, n))} {C.hx(key)}"
+
     # large inputs (block-wise "optimisations"): sizes around 64 KiB / 128 KiB / 1 MiB with keys that do not divide them
     big = [65535, 65536, 65537, 70001, 131072 + 5] + ([262144 + 3, 1048576 + 7] if thorough else [])
     for n in big:
